@@ -189,3 +189,66 @@ Theorem C10_end_session_variants :
    (r_cls a = K4xx \/ r_cls a = K5xx) /\ r_creds a = []).
 Proof. exact end_session_variants. Qed.
 Print Assumptions C10_end_session_variants.
+
+(* WHAT a failing call returns besides the error is a dimension of its own (C10_Handlers.results_of):
+   nothing (untyped nil / zero values), typed nil pointers inside the interface-typed results (SNil:
+   `var req *AuthRequest; ...; return req, err` - a nil test on the interface does not see it, a method
+   call dereferences nil), non-nil empty objects (SZero), or the complete results (SKeep).  Two storages
+   that offer the same optional interfaces are answered alike for every router, flow, provider state and
+   plan: no handler looks at - or calls a method of - anything a failing call returned. *)
+Theorem C10_failure_results_shape_ignored :
+  forall r sv sv' f w p,
+  ifaces_of sv = ifaces_of sv' -> model (Req r sv f w p) = model (Req r sv' f w p).
+Proof. exact failure_results_shape_ignored. Qed.
+Print Assumptions C10_failure_results_shape_ignored.
+
+(* The same for the answer itself: whatever accompanies the error, a well-formed request outside the two
+   open findings gets exactly one response - never a panic or a hang -, the one the storage returning
+   nothing gets, and when the injected failure (not the documented ErrInvalidRefreshToken answer) was
+   reached it is an error redirect to the validated URI / 4xx / 5xx (introspection: or 200
+   {active:false}) without code, token, claim or active:true. *)
+Theorem C10_fail_closed_any_results :
+  forall r sv f w p,
+  wf_flow f = true -> open_finding (Req r sv f w p) = false ->
+  exists h cls err creds j,
+    model (Req r sv f w p) = Obs h true cls err creds j /\
+    model (Req r (plain_storage sv) f w p) = Obs h true cls err creds j /\
+    (h = true -> is_failure p j = true ->
+     (cls = K302Err \/ cls = K4xx \/ cls = K5xx \/ (cls = KInactive /\ is_introspection f = true))
+     /\ (forall c, In c creds -> forbidden c = false)).
+Proof. exact fail_closed_any_results. Qed.
+Print Assumptions C10_fail_closed_any_results.
+
+(* non-vacuity: the authorize callback whose AuthRequestByID fails with a typed nil request (SNil) is a
+   well-formed input outside the findings, the failure is reached and the answer is 400 without redirect;
+   a wrapped deadline at the client lookup of a code exchange is answered alike for SZero and SStd *)
+Theorem C10_fail_closed_any_results_nonvacuous :
+  let i := Req RProvider SNil (FCallbackCode Web MDefault) false (PAt 1 (K BPlain false)) in
+  wf_input i = true /\ open_finding i = false /\ results_of SNil = RTypedNil /\
+  model i = Obs true true K4xx "" [] [MAuthRequestByID] /\
+  model (Req RLegacy SZero (FTokenCode Web2 true) true (PAt 2 (K BDeadline true)))
+  = model (Req RLegacy SStd (FTokenCode Web2 true) true (PAt 2 (K BDeadline true))).
+Proof. exact fail_closed_any_results_nonvacuous. Qed.
+Print Assumptions C10_fail_closed_any_results_nonvacuous.
+
+(* Introspection, every router, storage variant (in particular SKeep / SFull: the failing call has
+   written into the response it was handed, SFull also active:true), client and plan: a reached failure of
+   any call - client authentication, KeySet, SetIntrospectionFromToken - is answered 4xx or 200
+   {active:false} and nothing else; the document under construction (the fault-free answer: claims and
+   active:true) is never the answer to a failure. *)
+Theorem C10_introspection_failure_inactive :
+  forall r sv c p,
+  hit p (handler r sv (FIntrospect c)) = true ->
+  let a := answer p (handler r sv (FIntrospect c)) in
+  (r_cls a = K4xx \/ r_cls a = KInactive) /\ r_creds a = [].
+Proof. exact introspection_failure_inactive. Qed.
+Print Assumptions C10_introspection_failure_inactive.
+
+Theorem C10_introspection_failure_inactive_nonvacuous :
+  results_of SFull = RFull /\
+  hit (PAt 2 (K BPlain false)) (handler RProvider SFull (FIntrospect Web)) = true /\
+  model (Req RProvider SFull (FIntrospect Web) false (PAt 2 (K BPlain false)))
+  = Obs true true KInactive "" [] [MAuthorizeClientIDSecret; MSetIntrospectionFromToken] /\
+  r_creds (answer PNone (handler RProvider SFull (FIntrospect Web))) = [CClaims; CActive].
+Proof. exact introspection_failure_inactive_nonvacuous. Qed.
+Print Assumptions C10_introspection_failure_inactive_nonvacuous.
